@@ -187,11 +187,20 @@ func (p *Proxy) forwardRpc(source string, rpc *goatorepo.Rpc) {
 	}
 }
 
+// reportError tells the forwarding loop that this connection has failed - unless
+// the proxy is shutting down, in which case nobody is listening any more.
+func (c *proxyClient) reportError(ctx context.Context, err error) {
+	select {
+	case c.toServer <- command{id: c.id, err: err, client: c}:
+	case <-ctx.Done():
+	}
+}
+
 func (c *proxyClient) readLoop(ctx context.Context) error {
 	for {
 		rpc, err := c.conn.Read(ctx)
 		if err != nil {
-			c.toServer <- command{id: c.id, err: err, client: c}
+			c.reportError(ctx, err)
 			return errors.Wrap(err, "failed to read from connection")
 		}
 
@@ -210,7 +219,7 @@ func (c *proxyClient) writeLoop(ctx context.Context) error {
 
 			err := c.conn.Write(ctx, rpc)
 			if err != nil {
-				c.toServer <- command{id: c.id, err: err, client: c}
+				c.reportError(ctx, err)
 				return errors.Wrap(err, "failed to write to connection")
 			}
 		case <-ctx.Done():
@@ -231,7 +240,7 @@ func (c *proxyClient) connect(ctx context.Context, newConnection NewConnection) 
 
 	c.conn, err = newConnection(c.id)
 	if err != nil {
-		c.toServer <- command{id: c.id, err: err, client: c}
+		c.reportError(ctx, err)
 		return
 	}
 
